@@ -692,3 +692,18 @@ package websocket
 //@ ensures[C10.failstop] imp(result != nil && isDataT(messageType), c.writeErr != nil)
 //@ ensures[C01.sent] imp(result == nil && !(c.newCompressionWriter != nil && c.enableWriteCompression && isDataT(messageType)), c.g_acc == old(c.g_acc) + len(data) && c.g_out == c.g_acc && !c.g_wst)
 //@ ghost after call:copy#1: c.g_acc := c.g_acc + ret
+
+//@ func newConn
+//@ tags C01 C03 C20
+//@ requires conn != nil
+//@ requires imp(br != nil, br.g_size >= 125 && br.g_buf > 0 && br.g_buffered >= 0 && br.g_rd >= 0)
+//@ requires imp(region(writeBuf) != 0, len(writeBuf) >= 139 && off(writeBuf) == 0 && region(writeBuf) > 0)
+//@ modifies
+//@ ensures[fresh] result != nil && ref(result) >= old(alloc())
+//@ ensures[fields] result.conn == conn && result.isServer == isServer && result.writePool == writeBufferPool && imp(br != nil, result.br == br)
+//@ ensures[reader] result.readErr == nil && result.readFinal && result.readRemaining == 0 && result.readLength == 0 && result.readMaskPos == 0 && result.br != nil && \
+//@     result.br.g_size >= 125 && result.br.g_buf > 0 && result.br.g_buffered >= 0 && result.br.g_rd >= 0 && !held(result.mu)
+//@ ensures[nocompress] result.newCompressionWriter == nil && result.newDecompressionReader == nil && result.enableWriteCompression && result.compressionLevel == 1
+//@ ensures[writer] result.writer == nil && result.writeErr == nil && result.writeBufSize >= 139 && \
+//@     ((region(result.writeBuf) == 0 && len(result.writeBuf) == 0 && result.writePool != nil) || (region(result.writeBuf) > 0 && len(result.writeBuf) >= 139 && off(result.writeBuf) == 0))
+//@ ensures[C01.ctlroom] imp(region(result.writeBuf) != 0, len(result.writeBuf) >= 14 + 125)
